@@ -6,6 +6,9 @@ Parameters (ibm section of the configuration):
   lifetime:    kill when age (in steps) reaches this value (0 = off); needs state variable 'age'
   weight:      if true, state['weight'] += 0.01 * state['temp'] each step
   record:      if true, append ('ibm', step, snapshot) to vlib.recorder
+  ask_lonlat:  if true, ask the grid for longitude/latitude at the state's positions every step (as an IBM
+               with light- or temperature-dependent behaviour would)
+  wander:      [dx, dy] added to the positions every step with the in-place idiom state["X"] += dx
 """
 import numpy as np
 
@@ -27,6 +30,9 @@ class IBM:
         self.weight = bool(kw.get("weight", False))
         self.record = bool(kw.get("record", False))
         self.offset = int(kw.get("step_offset", 0) or 0)
+        self.ask_lonlat = bool(kw.get("ask_lonlat", False))
+        self.wander = kw.get("wander") or None
+        self.lonlat = None
         self.closed = 0
 
     def update(self):
@@ -42,6 +48,11 @@ class IBM:
             state["alive"] &= ~np.isin(state["tag"], self.kills[step])
         if step in self.deact:
             state["active"] &= ~np.isin(state["tag"], self.deact[step])
+        if self.ask_lonlat and len(state.X):
+            self.lonlat = self.modules["grid"].lonlat(state.X, state.Y)
+        if self.wander:
+            state["X"] += float(self.wander[0])
+            state["Y"] += float(self.wander[1])
         if self.record:
             snap = {v: np.array(state[v]).copy() for v in state.instance_variables}
             recorder.add("ibm", int(self.timer.step), str(self.timer.time), snap)
